@@ -79,6 +79,7 @@ func checkC09(c *Ctx) {
 		"T-SIGALG: every row of signatureAlgorithmDetails maps, in checkSignature's switch, to the same hash; SM2 rows carry the ECDSA key type; unknown algorithms are rejected",
 		"K-C09-oid: SM2/SM3 signature OIDs and the SM2 named-curve OID equal their registered values; curve<->OID maps are inverse for SM2; default SM2 parameters are SM3 + the SM2-with-SM3 OID",
 		"T-PSS-salt / T-PSS-opts: every rsa.PSSOptions built in the package (creators and verifier) uses SaltLength = hash size as the encoded parameters announce, and every creator can hand PSS options to the signer",
+		"K-C09-bitstring: the content of a parsed signature-value asn1.BitString is taken through RightAlign(), which honours the declared bit length, never through the Bytes field: with Bytes the unused-bits octet is ignored and a re-encoded signature value with another bit length still verifies",
 		"G-C09-sigbits: each creator places the signer's output as the BIT STRING signature and the chosen AlgorithmIdentifier in both the TBS and the outer structure")
 	c.NotDec = append(c.NotDec, "field-by-field parse-back of all template fields", "failure under any other key / any modified byte (cryptographic)")
 
@@ -151,6 +152,7 @@ func checkC09(c *Ctx) {
 	c09KeyUsage(c)
 	c09ExtAgree(c)
 	c09SignedBytes(c)
+	c09BitStrings(c)
 }
 
 // c09Creator: evaluate the raw/digest predicate of one creator over all models
@@ -828,5 +830,67 @@ func c09KeyUsage(c *Ctx) {
 	})
 	if n == 0 {
 		c.Undecided(rule, fname(f), "KeyUsage store", "not found", f.Pos())
+	}
+}
+
+// c09BitStrings: reads of the Bytes field of an encoding/asn1.BitString in package x509 (outside tests). A parsed BIT
+// STRING carries a bit length; RightAlign() is the accessor that honours it. The creators build BitString literals
+// (stores), which are not reads.
+func c09BitStrings(c *Ctx) {
+	rule := "K-C09-bitstring"
+	isBitString := func(t types.Type) bool {
+		if p, ok := t.Underlying().(*types.Pointer); ok {
+			t = p.Elem()
+		}
+		nt, ok := t.(*types.Named)
+		return ok && nt.Obj().Name() == "BitString" && nt.Obj().Pkg() != nil && nt.Obj().Pkg().Path() == "encoding/asn1"
+	}
+	// only signature values are in this property's scope (a public-key BIT STRING read leniently is a decoding matter)
+	var isSigValue func(v ssa.Value) bool
+	isSigValue = func(v ssa.Value) bool {
+		switch x := v.(type) {
+		case *ssa.FieldAddr:
+			return strings.Contains(fieldName(x.X.Type(), x.Field), "Signature")
+		case *ssa.Field:
+			return strings.Contains(fieldName(x.X.Type(), x.Field), "Signature")
+		case *ssa.UnOp:
+			return x.Op == token.MUL && isSigValue(x.X)
+		}
+		return false
+	}
+	nRight := 0
+	for f := range c.P.AllFns {
+		if !inRepo(f) || f.Pkg == nil || f.Pkg.Pkg.Name() != "x509" || f.Blocks == nil || strings.HasSuffix(c.P.relFile(f.Pos()), "_test.go") {
+			continue
+		}
+		k := 0
+		instrsOf(f, func(_ *ssa.BasicBlock, in ssa.Instruction) {
+			switch x := in.(type) {
+			case *ssa.Call:
+				if calleeID(&x.Call) == "(encoding/asn1.BitString).RightAlign" {
+					nRight++
+				}
+			case *ssa.Field:
+				if isBitString(x.X.Type()) && fieldName(x.X.Type(), x.Field) == "Bytes" && isSigValue(x.X) {
+					k++
+					c.Violated(rule, fname(f), fmt.Sprintf("read of BitString.Bytes #%d", k), "the bytes of a parsed BIT STRING are used without its bit length (Bytes instead of RightAlign()): encodings that differ only in the unused-bits count are treated as the same value", x.Pos())
+				}
+			case *ssa.FieldAddr:
+				if !isBitString(x.X.Type()) || fieldName(x.X.Type(), x.Field) != "Bytes" || !isSigValue(x.X) {
+					return
+				}
+				for _, u := range *x.Referrers() {
+					if ld, ok := u.(*ssa.UnOp); ok && ld.Op == token.MUL {
+						k++
+						c.Violated(rule, fname(f), fmt.Sprintf("read of BitString.Bytes #%d", k), "the bytes of a parsed BIT STRING are used without its bit length (Bytes instead of RightAlign()): encodings that differ only in the unused-bits count are treated as the same value", ld.Pos())
+					}
+				}
+			}
+		})
+	}
+	if nRight == 0 {
+		c.Undecided(rule, "x509", "RightAlign() readers", "no RightAlign() call left in package x509: signature values are read in a way this rule does not know", token.NoPos)
+	} else {
+		c.Holds(rule, "x509", "no signature value is read through BitString.Bytes", fmt.Sprintf("%d RightAlign() calls", nRight), token.NoPos)
 	}
 }
